@@ -14,6 +14,9 @@ class C14Engine:
 		self.subs = {"um": um, "dump": dump}
 		self.weights = [("um", 6), ("dump", 2)]
 		try:
+			import os
+			if os.environ.get("VERIF_C14_TRXCON", "0") != "1":
+				raise ImportError("trxcon sub-engine not enabled yet")
 			from engines.trxcon import ENGINE as trxcon
 			self.subs["trxcon"] = trxcon
 			self.weights.append(("trxcon", 4))
